@@ -1,11 +1,11 @@
-\* (B) deep pipeline: single-block batches (up to 4 batches + the final empty reply), rawBatches capacity 2, warmedUp
+\* (B) deep pipeline: single-block batches (up to 3 batches + the final empty reply), rawBatches capacity 2, warmedUp
 \*     capacity 2: every fault at every position with the queues full behind it; download must return (BTerminates)
 SPECIFICATION SpecB
 CONSTANTS
   MaxH = 0
   ExtraR = 0
   MaxHB = 0
-  MaxRB = 4
+  MaxRB = 3
   MaxBatch = 1
   RawCap = 2
   WarmCap = 2
